@@ -34,7 +34,10 @@ def end_to_end(ctx, recs):
     options alone; every fresh lattice layout is compared item by item.  Drift only."""
     import json
     quick = ctx.tier == "quick"
-    sub = [r for r in recs if r["lattice"] == 1 and r.get("fresh") == 1 and r["U"] == 4 and len(r["labels"]) <= (14 if quick else 25)][::(2 if quick else 1)]
+    # (far-away instances are left out: which way an exact half goes next to a wall is decided by float noise of the order of
+    #  1e-10 at ordinary coordinates - that is what the model describes - and by much coarser noise at 1e9)
+    sub = [r for r in recs if r["lattice"] == 1 and r.get("fresh") == 1 and r["U"] == 4 and not r.get("far")
+           and len(r["labels"]) <= (14 if quick else 25)][::(2 if quick else 1)]
     res, st = core.validate_records("LayoutDrift", "LayoutDrift.cfg", sub, per_shard=300, heap="3g")
     ctx.states += st["distinct"]
     ctx.transitions += st["generated"]
